@@ -407,3 +407,64 @@ def ord1(ctx, pid, cls):
         else:
             ctx.ok(c, f.loc(), "on all %d paths no db write follows the root_hash store" % npaths)
     ctx.expect_min("functions assigning root_hash in %s" % cls.split(":")[1], n_root, 3, "set/delete/_set_root_node/squash_changes or set/delete/delete_subtrie/setter")
+
+
+# ---------------------------------------------------------------------------
+# RSRC  readers answer from the known state only
+# ---------------------------------------------------------------------------
+@rule("RSRC", list(READERS))
+def rsrc(ctx, pid):
+    """A reader (and everything it calls) consults only the declared state of its object (db, root, configuration):
+    an answer that comes from any other attribute is a cache / memo whose freshness nothing in the property covers."""
+    from .. import spec
+    seen_funcs = set()
+    work = [ctx.P.func(q) for q in READERS[pid]]
+    while work:
+        f = work.pop()
+        if f.qual in seen_funcs:
+            continue
+        seen_funcs.add(f.qual)
+        for call, tg in ctx.E.call_edges(f):
+            if tg.kind == "def" and tg.func.module.name.startswith("trie") and not tg.func.module.is_tools:
+                work.append(tg.func)
+            elif tg.kind == "ctor":
+                for n in ("__init__", "__new__"):
+                    g = tg.cls.methods.get(n)
+                    if g is not None:
+                        work.append(g)
+    bad = None
+    n_loads = 0
+    for q in sorted(seen_funcs):
+        f = ctx.P.funcs[q]
+        for node in walk_shallow(f.node):
+            if not (isinstance(node, ast.Attribute) and isinstance(node.ctx, ast.Load)):
+                continue
+            t = ctx.R.type_of(node.value, f)
+            if not t or t[0] != "inst":
+                continue
+            cls = t[1]
+            if not any(k[0] == cls.qual for k in spec.STATE):
+                continue  # classes without declared state (exceptions, named tuples)
+            n_loads += 1
+            a = node.attr
+            if (cls.qual, a) in spec.STATE or a in cls.methods or a in cls.setters or a in cls.class_attrs or a in cls.annotations:
+                continue
+            if f.name == "__init__" and f.cls is cls:
+                continue
+            bad = bad or (f, node, cls, a)
+    c = "known-state-only:%s" % pid
+    if bad:
+        f, node, cls, a = bad
+        ctx.bad(c, f.loc(node), "%s reads `%s.%s`, which is not part of the declared state of %s (db / root / configuration): the answer can come from a memo instead of the content-addressed store"
+                % (fkey(f), ast.unparse(node.value), a, cls.name), witness={"function": f.qual, "attribute": a})
+    else:
+        ctx.ok(c, "trie/", "the %d functions reachable from the readers load only declared state attributes (%d attribute loads)" % (len(seen_funcs), n_loads))
+    # global (module-level) mutable tables consulted by readers must be constant tables
+    gbad = None
+    for q in sorted(seen_funcs):
+        f = ctx.P.funcs[q]
+        for e in ctx.E.primitives(f):
+            if e.loc is not None and e.loc[0][0] == "global" and e.op in ("W", "D", "M", "SET"):
+                gbad = gbad or (f, e)
+    if gbad:
+        ctx.bad("no-global-memo:%s" % pid, gbad[1].where(), "%s writes the module-level object `%s` (a process-wide memo shared by all tries and databases)" % (fkey(gbad[0]), gbad[1].loc[0][1]))
